@@ -1366,6 +1366,19 @@ impl Machine {
         .get_num() as usize;
     }
 
+    /// The look-ahead that keeps a choice point for a later clause goes by
+    /// the first argument only, so the clause may be a retracted one. When
+    /// the call comes back and nothing alive is left, that choice point is
+    /// removed, or backtracking would re-enter it for ever.
+    fn discard_exhausted_dynamic_choice_point(&mut self) {
+        if let FirstOrNext::Next = self.machine_st.dynamic_mode {
+            let b = self.machine_st.b;
+
+            self.machine_st.b = self.machine_st.stack.index_or_frame(b).prelude.b;
+            self.machine_st.stack.truncate(b);
+        }
+    }
+
     pub(super) fn find_living_dynamic_else(&self, mut p: usize) -> Option<(usize, usize)> {
         loop {
             match self.code[p] {
@@ -1895,6 +1908,7 @@ impl Machine {
                                 }
                             }
                             None => {
+                                self.discard_exhausted_dynamic_choice_point();
                                 self.machine_st.fail = true;
                             }
                         }
@@ -1982,6 +1996,7 @@ impl Machine {
                                 }
                             }
                             None => {
+                                self.discard_exhausted_dynamic_choice_point();
                                 self.machine_st.fail = true;
                             }
                         }
@@ -3829,18 +3844,7 @@ impl Machine {
                                         }
                                     }
                                     None => {
-                                        // no clause of the sequence is alive any more. The
-                                        // choice point that brought us back here was kept for
-                                        // an applicable clause that has since turned out dead:
-                                        // discard it, or backtracking re-enters it for ever.
-                                        if let FirstOrNext::Next = self.machine_st.dynamic_mode {
-                                            let b = self.machine_st.b;
-
-                                            self.machine_st.b =
-                                                self.machine_st.stack.index_or_frame(b).prelude.b;
-                                            self.machine_st.stack.truncate(b);
-                                        }
-
+                                        self.discard_exhausted_dynamic_choice_point();
                                         self.machine_st.fail = true;
                                     }
                                 }
